@@ -105,7 +105,7 @@ def run_scenario(sc: dict) -> dict:
         job = {"flavour": flavour, "keys": sc.get("keys"), "nk": nk, "w": w, "cache": True, "cache_dir": str(base / "cache"),
                "ctl": str(ctl), "log": str(base / f"log{n}.jsonl"), "result": str(base / f"res{n}.json"),
                "kill": sc.get("kill", "group"), **(plan or {})}
-        info = ck.spawn(job, timeout=20)
+        info = ck.spawn(job, timeout=45)
         log = ck.read_log(job["log"])
         return info, log, ctl
 
